@@ -165,11 +165,16 @@ class OptimizerModule:
                             old_state=old_value,
                             new_state=new_state[i],
                         )
-                        if store_non_tensors
-                        or isinstance(
-                            old_value,
-                            (torch.Tensor, dict, list, tuple, set, OptimizerModule),
+                        if (
+                            store_non_tensors
+                            or isinstance(
+                                old_value,
+                                (torch.Tensor, dict, list, tuple, set, OptimizerModule),
+                            )
                         )
+                        # As for dictionaries above, an entry missing from new_state (e.g., an element without any
+                        # tensor, which is dropped when a state dict is flattened) keeps its old value.
+                        and (not isinstance(new_state, dict) or i in new_state)
                         else old_value
                     )
                     for i, old_value in enumerate(old_state)
